@@ -38,9 +38,13 @@ func (f *FieldUpdater) Validate(m proto.Message) error {
 
 		// are fields mentioned in the update mask actually writable?
 		if f.writableFields != nil {
-			common := f.fullMask()
-			if len(common.Paths) != len(f.updateMask.Paths) {
-				return status.Errorf(codes.InvalidArgument, "%v mentions read-only fields", f.updateMaskFieldName)
+			// each path on its own: comparing path counts of the whole intersection lets a read-only path through
+			// when another path of the mask covers more than one writable field
+			for _, path := range f.updateMask.Paths {
+				common := fieldmaskpb.Intersect(f.writableFields, &fieldmaskpb.FieldMask{Paths: []string{path}})
+				if len(common.Paths) == 0 {
+					return status.Errorf(codes.InvalidArgument, "%v mentions read-only fields", f.updateMaskFieldName)
+				}
 			}
 		}
 	}
